@@ -5,6 +5,7 @@ import (
 	"errors"
 	"fmt"
 	"github.com/nspcc-dev/neo-go/pkg/core"
+	"github.com/nspcc-dev/neo-go/pkg/smartcontract/trigger"
 	"sort"
 
 	"github.com/nspcc-dev/neo-go/pkg/config"
@@ -141,6 +142,7 @@ func (r *run) runSync() {
 	}
 	r.P = S
 	r.prod = newProducer(S)
+	r.prod.allowMTBChange = true
 	r.prod.probes = r.out.Probes
 	r.prod.ora.answerStale = true // (finding F-ora-2: a state-synchronised node does not have old transactions)
 	r.w = &world{contracts: map[util.Uint160]int32{}}
@@ -382,8 +384,21 @@ func (sr *syncRun) ordinary(from uint32) {
 				sig += "+oracle-original-tx-not-kept"
 			} else if r.ledgerVMStateOfBlockUpTo(x, sr.P) {
 				sig += "+ledger-vmstate-of-unexecuted-tx"
+			} else if r.ledgerTxFromBlockUpTo(x, sr.P) {
+				sig += "+ledger-transaction-from-block-of-unexecuted-block"
 			}
-			r.violate(sim.Violatef("sync-lockstep-root", sig, "after state synchronisation at %d: state root at height %d is %v (%v), expected %s", sr.P, x, got, err, r.ref[x].Detail["stateroot"]))
+			// what the transactions of that block did on the two nodes
+			var det []string
+			if blk, berr := sr.T.BC.GetBlock(sr.T.BC.GetHeaderHash(x)); berr == nil {
+				for _, tx := range blk.Transactions {
+					at, _ := sr.T.BC.GetAppExecResults(tx.Hash(), trigger.Application)
+					as, _ := r.P.BC.GetAppExecResults(tx.Hash(), trigger.Application)
+					if len(at) == 1 && len(as) == 1 && (at[0].VMState != as[0].VMState || at[0].GasConsumed != as[0].GasConsumed) {
+						det = append(det, fmt.Sprintf("tx %s: synchronised node %s gas %d %s / source %s gas %d %s", tx.Hash().StringLE()[:8], at[0].VMState, at[0].GasConsumed, at[0].FaultException, as[0].VMState, as[0].GasConsumed, as[0].FaultException))
+					}
+				}
+			}
+			r.violate(sim.Violatef("sync-lockstep-root", sig, "after state synchronisation at %d: state root at height %d is %v (%v), expected %s %v", sr.P, x, got, err, r.ref[x].Detail["stateroot"], det))
 			return
 		}
 	}
@@ -697,6 +712,10 @@ func (sr *syncRun) crashJump() {
 							}
 							if r.ledgerVMStateOfBlockUpTo(y, sr.P) {
 								sig += "+ledger-vmstate-of-unexecuted-tx"
+								break
+							}
+							if r.ledgerTxFromBlockUpTo(y, sr.P) {
+								sig += "+ledger-transaction-from-block-of-unexecuted-block"
 								break
 							}
 						}
